@@ -52,6 +52,10 @@ func Run(c *hx.Ctx) {
 		initEnv()
 		runH2GoAway(c)
 	}
+	if only == "" || only == "h1d" {
+		initEnv()
+		runH1Drain(c)
+	}
 	if only == "" || only == "lookup" {
 		initEnv()
 		for i := range fixedTL {
